@@ -1,6 +1,7 @@
 //! vharness: drives the real seq_io code and records what it does. It contains no expected
 //! values; every verdict is taken by TLC from the TLA+ specifications in /verif/spec.
 mod alloc;
+mod far;
 mod gen;
 mod long;
 mod par;
